@@ -241,58 +241,96 @@ func propC02(c *Ctx) {
 	if !c.Anchor(rt, "VM.ip / VM.frameIndex / VM.curInsts / OpReturn", fIP >= 0 && fFrameIdx >= 0 && fCurInsts >= 0 && okR) {
 		return
 	}
-	var callFn *ssa.Function
-	for _, fn := range vf.reachFns {
-		storesFI, storesIP := false, false
-		eachInstr(fn, func(ins ssa.Instruction) {
-			if st, ok := ins.(*ssa.Store); ok {
-				if fa, ok := vf.isVMFieldAddr(st.Addr); ok {
-					if fa.Field == fFrameIdx {
-						storesFI = true
-					}
-					if fa.Field == fIP {
-						storesIP = true
-					}
-				}
-			}
-		})
-		if storesFI && storesIP && fn != vf.loop && len(fn.Params) >= 2 {
-			if _, ok := fn.Params[1].Type().(*types.Pointer); ok && isNamed(fn.Params[1].Type(), modPath, "CompiledFunction") {
-				callFn = fn
-			}
-		}
-	}
-	if !c.Anchor(rt, "the compiled-call routine (VM method taking *CompiledFunction that claims a frame)", callFn != nil) {
-		return
-	}
-	// the fast path: the store ip = -1 (constant) in the call routine that is NOT followed by a frameIndex store
-	var fast *ssa.Store
-	eachInstr(callFn, func(ins ssa.Instruction) {
-		st, ok := ins.(*ssa.Store)
-		if !ok {
-			return
-		}
-		fa, ok := vf.isVMFieldAddr(st.Addr)
-		if !ok || fa.Field != fIP {
-			return
-		}
-		// does a frameIndex store follow on the path to return?
-		storesFI := func(x ssa.Instruction) bool {
+	// stores (directly or in a helper called from there) of a VM field
+	storesDeep := func(field int) func(ssa.Instruction) bool {
+		direct := func(x ssa.Instruction) bool {
 			s2, ok := x.(*ssa.Store)
 			if !ok {
 				return false
 			}
 			fa2, ok := vf.isVMFieldAddr(s2.Addr)
-			return ok && fa2.Field == fFrameIdx
+			return ok && fa2.Field == field
+		}
+		memo := map[*ssa.Function]bool{}
+		return func(x ssa.Instruction) bool {
+			if direct(x) {
+				return true
+			}
+			cl, ok := x.(*ssa.Call)
+			if !ok {
+				return false
+			}
+			g := cl.Call.StaticCallee()
+			if g == nil || len(g.Blocks) == 0 || funcPkgPath(g) != modPath {
+				return false
+			}
+			if r, ok := memo[g]; ok {
+				return r
+			}
+			found := false
+			eachInstrDeep(g, 2, func(y ssa.Instruction) {
+				if direct(y) {
+					found = true
+				}
+			})
+			memo[g] = found
+			return found
+		}
+	}
+	storesFI, storesIP := storesDeep(fFrameIdx), storesDeep(fIP)
+	var callFn *ssa.Function
+	var cands []*ssa.Function
+	for _, fn := range vf.reachFns {
+		hasFI, hasIP := false, false
+		eachInstr(fn, func(ins ssa.Instruction) {
+			if storesFI(ins) {
+				hasFI = true
+			}
+			if storesIP(ins) {
+				hasIP = true
+			}
+		})
+		if hasFI && hasIP && fn != vf.loop && len(fn.Params) >= 2 {
+			if _, ok := fn.Params[1].Type().(*types.Pointer); ok && isNamed(fn.Params[1].Type(), modPath, "CompiledFunction") {
+				cands = append(cands, fn)
+			}
+		}
+	}
+	// among nested candidates the innermost one (it does not call another candidate)
+	for _, fn := range cands {
+		inner := true
+		eachInstr(fn, func(ins ssa.Instruction) {
+			if cl, ok := ins.(*ssa.Call); ok {
+				for _, o := range cands {
+					if o != fn && cl.Call.StaticCallee() == o {
+						inner = false
+					}
+				}
+			}
+		})
+		if inner {
+			callFn = fn
+		}
+	}
+	if !c.Anchor(rt, "the compiled-call routine (VM method taking *CompiledFunction that claims a frame)", callFn != nil) {
+		return
+	}
+	// the fast path: the instruction of the call routine that resets ip (a
+	// store, or a call of a helper that stores it) and is NOT on one path with
+	// a frameIndex store (no frame is claimed)
+	var fast ssa.Instruction
+	eachInstr(callFn, func(ins ssa.Instruction) {
+		if !storesIP(ins) || storesFI(ins) {
+			return
 		}
 		claims := false
 		eachInstr(callFn, func(x ssa.Instruction) {
-			if storesFI(x) && (instrDominates(x, st) || instrDominates(st, x)) {
+			if storesFI(x) && (instrDominates(x, ins) || instrDominates(ins, x)) {
 				claims = true
 			}
 		})
 		if !claims {
-			fast = st
+			fast = ins
 		}
 	})
 	if fast == nil {
@@ -302,11 +340,28 @@ func propC02(c *Ctx) {
 	pos := l.Pos(fast.Pos())
 	_, fFn := l.structField(modPath, "frame", "fn")
 	_, fEH := l.structField(modPath, "frame", "errHandlers")
+	// onFast: some instruction of the call routine that lies on every path
+	// through the fast path (dominates it or is dominated by it), or the fast
+	// path's helper call itself, satisfies pred (lifted over helper calls)
+	onFast := func(pred func(ssa.Instruction) bool) bool {
+		dp := viaDeep(pred)
+		found := false
+		eachInstr(callFn, func(x ssa.Instruction) {
+			if dp(x) && (x == fast || instrDominates(x, fast) || instrDominates(fast, x)) {
+				found = true
+			}
+		})
+		return found
+	}
 	// (a) same callee: guard comparing the callee parameter with curFrame.fn
 	sameCallee := false
-	// (b) continuation: every guard path compares the opcode after the call with OpReturn only
-	var nextOps []string
+	var predHelpers []*ssa.Function
 	for _, g := range guardEdges(fast.Block()) {
+		if cl, ok := g.If.Cond.(*ssa.Call); ok && g.Truth {
+			if h := cl.Call.StaticCallee(); h != nil && len(h.Blocks) > 0 && funcPkgPath(h) == modPath {
+				predHelpers = append(predHelpers, h)
+			}
+		}
 		bo, ok := g.If.Cond.(*ssa.BinOp)
 		if !ok || bo.Op != token.EQL || !g.Truth {
 			continue
@@ -322,22 +377,13 @@ func propC02(c *Ctx) {
 		}
 	}
 	c.Check(rt, "fast path only for the current frame's own function", pos, sameCallee, "dominated by callee == curFrame.fn", "the frame is reused for a callee that is not proven to be the function of the current frame: locals and free variables of another function are reused")
-	// continuation: collect every comparison of an instruction byte with an opcode constant among the conditions that lead to the fast path
+	// (b) continuation: collect every comparison of an instruction byte with an
+	// opcode constant among the conditions that lead to the fast path (in the
+	// call routine, and in a predicate helper that guards the fast path)
 	contOK := true
 	seenReturn := false
-	for _, b := range callFn.Blocks {
-		iff, ok := b.Instrs[len(b.Instrs)-1].(*ssa.If)
-		if !ok {
-			continue
-		}
-		// does this condition's true edge reach the fast path without passing another claim?
-		if !blockReaches(b.Succs[0], fast.Block()) {
-			continue
-		}
-		bo, ok := iff.Cond.(*ssa.BinOp)
-		if !ok || bo.Op != token.EQL {
-			continue
-		}
+	var nextOps []string
+	cmpOpcode := func(bo *ssa.BinOp) {
 		for _, pr := range [][2]ssa.Value{{bo.X, bo.Y}, {bo.Y, bo.X}} {
 			k, ok := constInt64(pr[0])
 			if !ok {
@@ -368,52 +414,102 @@ func propC02(c *Ctx) {
 			}
 		}
 	}
+	for _, b := range callFn.Blocks {
+		iff, ok := b.Instrs[len(b.Instrs)-1].(*ssa.If)
+		if !ok {
+			continue
+		}
+		// does this condition's true edge reach the fast path without passing another claim?
+		if !blockReaches(b.Succs[0], fast.Block()) {
+			continue
+		}
+		if bo, ok := iff.Cond.(*ssa.BinOp); ok && bo.Op == token.EQL {
+			cmpOpcode(bo)
+		}
+	}
+	for _, h := range predHelpers {
+		eachInstr(h, func(ins ssa.Instruction) {
+			if bo, ok := ins.(*ssa.BinOp); ok && bo.Op == token.EQL {
+				cmpOpcode(bo)
+			}
+		})
+	}
 	sort.Strings(nextOps)
 	c.Check(rt, "fast path only when the call is followed by RETURN", pos, contOK && seenReturn, "the opcode after the call is compared with OpReturn only",
 		fmt.Sprintf("the fast path is also taken when the instruction after the call is one of %v: e.g. for POP;RETURN ordinary recursion discards the callee's value while the reused frame returns it", nextOps))
 	// (c) handlers cleared
-	clears := false
-	eachInstr(callFn, func(ins ssa.Instruction) {
-		if st, ok := ins.(*ssa.Store); ok {
-			if _, ok := isFieldAddrOf(st.Addr, modPath, "frame", fEH); ok {
-				if cst, ok := st.Val.(*ssa.Const); ok && cst.IsNil() && (instrDominates(st, fast) || instrDominates(fast, st)) {
-					clears = true
-				}
-			}
-		}
-	})
-	c.Check(rt, "fast path clears the frame's error handlers", pos, clears, "errHandlers = nil on the fast path", "the reused frame keeps the handlers of the previous activation")
-	// (d) locals beyond the parameters are reset on the fast path too: a loop storing Undefined into the stack dominates / is on the path of the fast store
-	resets := false
-	undef := l.SPkg(modPath).Var("Undefined")
-	eachInstr(callFn, func(ins ssa.Instruction) {
+	clears := onFast(func(ins ssa.Instruction) bool {
 		st, ok := ins.(*ssa.Store)
 		if !ok {
-			return
+			return false
 		}
-		u, ok := st.Val.(*ssa.UnOp)
-		if !ok || u.X != ssa.Value(undef) {
-			return
+		if _, ok := isFieldAddrOf(st.Addr, modPath, "frame", fEH); !ok {
+			return false
 		}
-		if _, ok := st.Addr.(*ssa.IndexAddr); !ok {
-			return
-		}
-		b := st.Block()
-		cyc := false
-		for _, s := range b.Succs {
-			if blockReaches(s, b) {
-				cyc = true
+		cst, ok := st.Val.(*ssa.Const)
+		return ok && cst.IsNil()
+	})
+	c.Check(rt, "fast path clears the frame's error handlers", pos, clears, "errHandlers = nil on the fast path", "the reused frame keeps the handlers of the previous activation")
+	// (d) locals beyond the parameters are reset on the fast path too: a loop
+	// storing Undefined into the stack lies on the way to the fast path: its
+	// header dominates the fast path (or, in a helper, every return of the
+	// helper whose call dominates the fast path)
+	undef := l.SPkg(modPath).Var("Undefined")
+	// resetLoopBefore: fn has such a loop with a block on the cycle dominating `target`
+	resetLoopBefore := func(fn *ssa.Function, dominatesTarget func(*ssa.BasicBlock) bool) bool {
+		res := false
+		eachInstr(fn, func(ins ssa.Instruction) {
+			st, ok := ins.(*ssa.Store)
+			if !ok {
+				return
 			}
-		}
-		if !cyc {
-			return
-		}
-		// the loop must execute on the way to the fast path: its header dominates the fast store
-		for _, x := range callFn.Blocks {
-			if blockReaches(x, b) && blockReaches(b, x) && x.Dominates(fast.Block()) {
+			u, ok := st.Val.(*ssa.UnOp)
+			if !ok || u.X != ssa.Value(undef) {
+				return
+			}
+			if _, ok := st.Addr.(*ssa.IndexAddr); !ok {
+				return
+			}
+			b := st.Block()
+			cyc := false
+			for _, s := range b.Succs {
+				if blockReaches(s, b) {
+					cyc = true
+				}
+			}
+			if !cyc {
+				return
+			}
+			for _, x := range fn.Blocks {
+				if blockReaches(x, b) && blockReaches(b, x) && dominatesTarget(x) {
+					res = true
+				}
+			}
+		})
+		return res
+	}
+	resets := resetLoopBefore(callFn, func(x *ssa.BasicBlock) bool { return x.Dominates(fast.Block()) })
+	if !resets {
+		eachInstr(callFn, func(ins ssa.Instruction) {
+			cl, ok := ins.(*ssa.Call)
+			if !ok || !(ins == fast || instrDominates(ins, fast)) {
+				return
+			}
+			h := cl.Call.StaticCallee()
+			if h == nil || len(h.Blocks) == 0 || funcPkgPath(h) != modPath {
+				return
+			}
+			if resetLoopBefore(h, func(x *ssa.BasicBlock) bool {
+				for _, rb := range h.Blocks {
+					if _, isRet := rb.Instrs[len(rb.Instrs)-1].(*ssa.Return); isRet && !x.Dominates(rb) {
+						return false
+					}
+				}
+				return true
+			}) {
 				resets = true
 			}
-		}
-	})
+		})
+	}
 	c.Check(rt, "fast path resets the non-parameter locals", pos, resets, "the loop storing undefined into the locals lies on every path to the fast path", "the reused frame keeps the previous activation's locals: a closure that captured one of them (e.g. a catch variable) shares it across activations, unlike ordinary recursion")
 }
